@@ -1,6 +1,7 @@
 """Claims table for MANIFEST.json (bin/mkmanifest)."""
 TB = ("Trusted: clang 14 front end/constant folder/CFG builder, the extractor (engine/mifacts.cc), the Python path and dataflow algorithms (lib/), "
-      "the frozen rule tables in rules/ (each exception one named symbol with a reason). ")
+      "the frozen rule tables in rules/ (each exception one named symbol with a reason) and the reference function list fixtures/reference_functions.json "
+      "(new private helpers are virtually inlined; a vanished/re-typed reference anchor makes the run ANALYSIS-BROKEN, exit 2, not a verdict). ")
 CLAUSE = ("Static analysis. Decides, for all inputs/schedules at once, the listed code-shaped NECESSARY conditions of the property on every CFG path of the "
           "functions that implement it (a violated condition breaks the behaviour); it does not decide the behavioural whole — see 'Not decided' in the DESIGN section. ")
 
@@ -13,11 +14,11 @@ CLAIMS = {
 
  "C01": C("other", "must-pass-through pairing, def-use and guarded-by over alloc/free/page/segment code + module ownership",
           "C01: pop/push pairing with the used counter, list conservation, free-list extension bounded by the reserve computed from the page's own area, page free only when all-free, "
-          "span split/merge arithmetic and guards, byte units of slice back-pointers, flag-byte integrity, module-level ownership of bookkeeping fields.",
+          "span split/merge arithmetic and guards, byte units of slice back-pointers, flag-byte integrity, module-level ownership of bookkeeping fields. Also: page start and reported page size use one offset; heap migration moves every page queue.",
           "Composition of these steps into `no overlap for every history` needs the inductive heap invariant and is not decided."),
  "C02": C("other", "atomic-protocol shape analysis over all CAS/RMW sites + field-effect analysis of the remote-free call graph",
           "C02: CAS-loop freshness at all retry loops, CAS result discipline (29 sites), effect separation of the cross-thread free (no owner-only page state touched), the "
-          "DELAYED_FREEING bracket, owner-side ordering, a frozen memory-order floor table, RMW-only updates of the shared list words.",
+          "DELAYED_FREEING bracket, owner-side ordering, a frozen memory-order floor table, RMW-only updates of the shared list words. Also: after the publishing CAS / the hand-off call the freeing thread touches neither block nor page.",
           "Linearizability / absence of double hand-out over interleavings is a schedule property and not decided (model-checking family)."),
  "C03": C("other", "linear-inequality proof + witness search + residue-exhaustive abstract interpretation + guarded-by",
           "C03: has_aligned set on every path returning an interior pointer; over-allocation >= size+alignment-1 (proved/refuted); form of poffset/adjust; every consumer un-aligns; "
@@ -41,7 +42,7 @@ CLAIMS = {
           "The first sentence (all guarantees under every option combination) is a run-time matrix and NOT decided by this technique."),
  "C14": C("other", "CAS observed-clear/freshness conditions in bitmap.c + roll-back region analysis + claim/free agreement",
           "C14: bits or-ed in only after observed clear, all failure edges of the multi-field claim pass the roll-back, conditional undo of the initial field, bounded retry, "
-          "claim/free agree on count and index with a checked result, containment arithmetic, mask helper structure.",
+          "claim/free agree on count and index with a checked result, containment arithmetic, mask helper structure. Also: the free path's sanity checks accept every range that ends with the arena's last block (evaluated witnesses).",
           "Disjointness of concurrently returned ranges over interleavings is not decided."),
  "C16": C("proof", "interval abstract interpretation of the extracted source over partitions of the whole input domain (bisection on undecided cells)",
           "C16: ∀ size in [0, PTRDIFF_MAX] mi_bin is exactly the first produced bin >= size (HUGE above the medium maximum); bin/span tables; mi_good_size; mi_slice_bin8 on [0,512]; fast division "
@@ -50,7 +51,7 @@ CLAIMS = {
           "Trusts lib/absint.py (interval transfer functions, builtin models); A4 above the medium maximum and A10 are sampled laws and say so; quick tier proves A7 on boundary cells only."),
  "C17": C("other", "presence/order/dominance analysis in the two hardened programs (MI_SECURE=4, MI_DEBUG=3)",
           "C17: double-free check before any store, padding check before the push / before the remote publication and before _mi_padding_shrink, report-and-cut of out-of-page links, "
-          "who-may-decode page-keyed links, bounded remote walk, inverse structure of the pointer codec, canary/delta written and validated, detection paths return normally with EAGAIN/EFAULT.",
+          "who-may-decode page-keyed links, bounded remote walk, inverse structure of the pointer codec, canary/delta written and validated, detection paths return normally with EAGAIN/EFAULT. Also: the pre-filter of the double-free walk is definitely true for a NULL link.",
           "Detection of forged in-page values is excluded by the property itself."),
  "C19": C("other", "symbol-table check of the override unit's AST against an ABI oracle table + call-graph reachability",
           "C19: all 49 overriding symbols (22 aliases, 27 bodies incl. 20 operator new/delete forms) are defined, default-visible, forward to the stated mi_ function with the stated argument "
@@ -62,15 +63,15 @@ CLAIMS = {
           "Assumes memory reported zero by the OS/arena is zero."),
  "C05": C("other", "must-pass-through / guarded-by over the realloc bodies + call-graph effects",
           "C05: copy length is exactly min(old usable, newsize); mi_free(p) only after newp != NULL, once, never before returning p/NULL; guards of the in-place return; alignment "
-          "provenance of every return of the aligned re-allocation; mi_expand is effect-free; reallocf frees exactly on failure.",
+          "provenance of every return of the aligned re-allocation; mi_expand is effect-free; reallocf frees exactly on failure. Also: nothing writes into the new block after the copy (the tail zeroing starts inside the copied prefix).",
           "Byte equality of copied contents is a run-time fact and not decided."),
  "C07": C("other", "result-discipline over all call sites of a frozen fallible set + NULL-dominance + failure-edge must-pass",
           "C07: no OS/arena/segment/page failure result dropped (98 live call sites, exception table), no unchecked dereference of a fallible pointer result, commit state only after success "
-          "and undone on failure, partially built objects released, retry-once-then-ENOMEM slow path, full commit mask for huge segments.",
+          "and undone on failure, partially built objects released, retry-once-then-ENOMEM slow path, full commit mask for huge segments. Also: the retry after a forced collect repeats the original request; a claimed arena range is committed as a whole.",
           "Does not enumerate fault positions; kernel behaviour assumed as documented."),
  "C09": C("other", "ordering (must-pass), never-after-publication, guarded adoption over CFG + call graph",
           "C09: thread-exit path shape, abandon order, nothing touched after a segment is published as abandoned, reclaim only after the atomic un-abandon (and sub-process check), "
-          "only heaps that may reclaim adopt pages, empty abandoned segments are released, forced-abandon pairing.",
+          "only heaps that may reclaim adopt pages, empty abandoned segments are released, forced-abandon pairing. Also: reclaim-on-free un-abandons only behind the sub-process test; draining never re-arms delayed free over NEVER.",
           "Exclusivity of adoption over interleavings is a schedule property and not decided."),
  "C10": C("other", "guarded-by / ordering / who-may-call over heap delete, absorb, destroy",
           "C10: delete absorbs only into a compatible backing heap else abandons, unlink and reset default before mi_free(heap) as last access; absorb order; destroy only on no_reclaim "
@@ -78,19 +79,19 @@ CLAIMS = {
           "In-flight remote frees during delete are a schedule property and not decided."),
  "C11": C("other", "def-use writer/reader agreement + must-pass-through over CFG and call graph",
           "C11: writer/reader agreement on memid.mem.os.{base,size}, no dropped pure size computation on the release chain, provenance of the size reaching munmap, must-pass release chain "
-          "segment->arena->OS->munmap, thread-data cache, forced-collect reachability.",
+          "segment->arena->OS->munmap, thread-data cache, forced-collect reachability. Also: memid provenance — the memid recorded in an object is, on every path, the one filled by the allocation call.",
           "Assumes munmap(2) releases what it is given; RSS over repetitions is a run-time quantity and not decided."),
  "C15": C("other", "guarded-by analysis of every hand-over site + DNF of the suitability predicate + def-use of trimming",
           "C15: a suitability test bound to the requesting heap's arena id guards every hand-over of spans/abandoned segments/arena blocks; no OS fallback or fresh arena for a bound request; "
           "cursor restriction; suitability predicate DNF; managed regions trimmed inwards; arena-incompatible heaps are not merged."),
  "C18": C("other", "edge-fact orientation agreement across sibling functions + reachability with constant arguments",
           "C18: the three purge drivers agree that a purge is skipped exactly while the expiry lies in the future; force=false purge attempts are reached from page free, page alloc, arena free and "
-          "normal collect; delay<0 / ==0 / >0 regimes; decommit-or-reset selection.",
+          "normal collect; delay<0 / ==0 / >0 regimes; decommit-or-reset selection. Also: segment timer invariant — purge_expire = 0 only together with an emptied purge mask.",
           "Wall-clock timing is not decided."),
  "C20": C("other", "table checks on folded initialisers + upper-bound dataflow (abstract interpretation) + cursor/limit dominance",
           "C20: option table rows match their enumerators and fit the lookup buffer; every bounded-writer call has a constant size <= its array; every fixed-array subscript in options/stats/libc "
           "code has a proven upper bound; primitive writers store only under p<end; parser saturates and leaves defaults on malformed input; keywords matched by whole-token equality; "
-          "options[] indexed only after a range check.",
+          "options[] indexed only after a range check. Also: JSON output into a caller buffer stays terminated on every exit of the print routine.",
           "libc's strtol/getenv trusted; mi_out_num's in-place digit reversal not decided."),
 }
 NOT_APPLICABLE = {}
